@@ -70,6 +70,10 @@ type Clause struct {
 	E     Expr
 	Text  string
 	Line  int
+	// Internal: a postcondition that is proved like any other but assumed only at call sites inside the callee's own
+	// package ("ensures [Cxx] internal label: e"). Callers elsewhere see less, which is sound, and their proofs do not
+	// carry quantifiers they have no use for (the red-black colour layer under the tree map/set/bidimap wrappers).
+	Internal bool
 }
 
 type ModItem struct {
@@ -153,6 +157,10 @@ type GhostField struct {
 	Name  string
 	// Type: "int" | "bool" | "like F" | "map like F" | "map int"
 	Type string
+	// Local ("ghost field T.f int local"): the field belongs to its package's private proof layer. Contracts of other
+	// packages must not mention it; in exchange, callers in other packages neither havoc it nor answer for it in their
+	// frames (no verification condition of theirs can depend on it, so this is sound).
+	Local bool
 }
 
 type Lemma struct {
@@ -580,12 +588,26 @@ func parseTags(s string) ([]string, string, string) {
 }
 
 func parseClause(d rawDirective) (Clause, error) {
-	tags, label, rest := parseTags(d.text)
+	text := strings.TrimSpace(d.text)
+	internal := false
+	// "internal" directly after the optional tag list
+	tagsPart := ""
+	if strings.HasPrefix(text, "[") {
+		if i := strings.Index(text, "]"); i >= 0 {
+			tagsPart, text = text[:i+1]+" ", strings.TrimSpace(text[i+1:])
+		}
+	}
+	if strings.HasPrefix(text, "internal ") {
+		internal = true
+		text = strings.TrimSpace(text[len("internal "):])
+	}
+	text = tagsPart + text
+	tags, label, rest := parseTags(text)
 	e, err := parseExprString(rest)
 	if err != nil {
 		return Clause{}, fmt.Errorf("line %d: %v", d.line, err)
 	}
-	return Clause{Tags: tags, Label: label, E: e, Text: rest, Line: d.line}, nil
+	return Clause{Tags: tags, Label: label, E: e, Text: rest, Line: d.line, Internal: internal}, nil
 }
 
 func splitTop(s string, sep rune) []string {
@@ -714,7 +736,12 @@ func parseSpecFile(pkg string, f *ast.File, lineOf func(ast.Node) int) (*SpecFil
 				return nil, fmt.Errorf("line %d: bad ghost directive", d.line)
 			}
 			on := strings.SplitN(fs[1], ".", 2)
-			sf.Ghosts = append(sf.Ghosts, GhostField{pkg, on[0], on[1], strings.Join(fs[2:], " ")})
+			ty := strings.Join(fs[2:], " ")
+			local := false
+			if strings.HasSuffix(ty, " local") {
+				local, ty = true, strings.TrimSuffix(ty, " local")
+			}
+			sf.Ghosts = append(sf.Ghosts, GhostField{pkg, on[0], on[1], ty, local})
 			cur, curLoop, curLemma = nil, nil, nil
 		case "func":
 			key := strings.TrimSpace(d.text)
